@@ -134,3 +134,167 @@ def run(g, env, fn=None, max_steps=400):
         if not nxt:
             return ("fall", None)
         n = nxt[0]
+
+
+def trace(g, env, max_steps=600, call_args=()):
+    """Like run(), and records what the walk passed: returns (outcome, value, visited statements, calls) where `calls` is
+    [(dotted callee, [argument values or Unknown]), ...] for the calls named in `call_args`, evaluated in the environment
+    at that statement. AugAssign on plain locals is folded too. Nothing but the function's own expressions is evaluated."""
+    env = dict(env)
+    n = g.entry
+    visited, calls = [], []
+    steps = 0
+
+    def note_calls(a):
+        for c in ast.walk(a):
+            if isinstance(c, ast.Call):
+                nm = ast.unparse(c.func)
+                if nm in call_args:
+                    vals = []
+                    for x in list(c.args) + [k.value for k in c.keywords]:
+                        try:
+                            vals.append(ev(x, env, None))
+                        except Unknown:
+                            vals.append(Unknown)
+                    calls.append((nm, vals, c))
+
+    while True:
+        steps += 1
+        if steps > max_steps:
+            raise Unknown("path too long (loop?)")
+        node = g.nodes[n]
+        if n == g.exit:
+            return ("fall", None, visited, calls)
+        if n == g.xexit:
+            return ("raise", None, visited, calls)
+        a = node.ast
+        if a is not None and node.kind in ("stmt", "test", "with"):
+            visited.append(a)
+        if node.kind == "test":
+            note_calls(a.test)
+            v = bool(ev(a.test, env, None))
+            nxt = g.label_succ(n, "T" if v else "F")
+            if not nxt:
+                raise Unknown("constant-folded branch")
+            n = nxt[0]
+            continue
+        if node.kind == "for":
+            raise Unknown("for loop")
+        if node.kind == "stmt":
+            if isinstance(a, ast.Return):
+                if a.value is not None:
+                    note_calls(a.value)
+                try:
+                    val = ev(a.value, env, None) if a.value is not None else None
+                except Unknown:
+                    val = Unknown
+                return ("return", val, visited, calls)
+            if isinstance(a, ast.Raise):
+                return ("raise", a, visited, calls)
+            note_calls(a)
+            if isinstance(a, ast.Assign) and len(a.targets) == 1 and isinstance(a.targets[0], ast.Name):
+                try:
+                    env[a.targets[0].id] = ev(a.value, env, None)
+                except Unknown:
+                    env.pop(a.targets[0].id, None)
+            elif isinstance(a, ast.Assign) and len(a.targets) == 1 and isinstance(a.targets[0], (ast.Attribute, ast.Subscript)):
+                key = ast.unparse(a.targets[0])
+                try:
+                    env[key] = ev(a.value, env, None)
+                except Unknown:
+                    env.pop(key, None)
+            elif isinstance(a, ast.AugAssign) and isinstance(a.target, ast.Name) and isinstance(a.op, (ast.Add, ast.Sub)):
+                try:
+                    cur = ev(a.target, env, None)
+                    d = ev(a.value, env, None)
+                    env[a.target.id] = cur + d if isinstance(a.op, ast.Add) else cur - d
+                except Unknown:
+                    env.pop(a.target.id, None)
+        nxt = [t for (t, lab) in node.succ if lab != "exc"] or [t for (t, lab) in node.succ]
+        if not nxt:
+            return ("fall", None, visited, calls)
+        n = nxt[0]
+
+
+def traces(g, env, call_args=(), max_paths=64, max_steps=600):
+    """All walks of trace() when a test cannot be folded: both branches are explored (bounded). Yields the same tuples as
+    trace(). A rule then quantifies over the walks of a row (every walk must ... / no walk may ...)."""
+    out = []
+
+    def walk(n, env, visited, calls, steps):
+        while True:
+            steps += 1
+            if steps > max_steps or len(out) >= max_paths:
+                raise Unknown("too many / too long paths")
+            node = g.nodes[n]
+            if n == g.exit:
+                out.append(("fall", None, visited, calls)); return
+            if n == g.xexit:
+                out.append(("raise", None, visited, calls)); return
+            a = node.ast
+            if a is not None and node.kind in ("stmt", "test", "with"):
+                visited = visited + [a]
+            if node.kind == "test":
+                calls = calls + _calls_in(a.test, env, call_args)
+                try:
+                    v = bool(ev(a.test, env, None))
+                    nxt = g.label_succ(n, "T" if v else "F")
+                    if not nxt:
+                        raise Unknown("constant-folded branch")
+                    n = nxt[0]
+                    continue
+                except Unknown:
+                    for lab in ("T", "F"):
+                        for t in g.label_succ(n, lab):
+                            walk(t, dict(env), visited, calls, steps)
+                    return
+            if node.kind == "for":
+                raise Unknown("for loop")
+            if node.kind == "stmt":
+                if isinstance(a, ast.Return):
+                    if a.value is not None:
+                        calls = calls + _calls_in(a.value, env, call_args)
+                    try:
+                        val = ev(a.value, env, None) if a.value is not None else None
+                    except Unknown:
+                        val = Unknown
+                    out.append(("return", val, visited, calls)); return
+                if isinstance(a, ast.Raise):
+                    out.append(("raise", a, visited, calls)); return
+                calls = calls + _calls_in(a, env, call_args)
+                env = dict(env)
+                if isinstance(a, ast.Assign) and len(a.targets) == 1 and isinstance(a.targets[0], (ast.Name, ast.Attribute, ast.Subscript)):
+                    key = ast.unparse(a.targets[0])
+                    try:
+                        env[key] = ev(a.value, env, None)
+                    except Unknown:
+                        env.pop(key, None)
+                elif isinstance(a, ast.AugAssign) and isinstance(a.target, ast.Name) and isinstance(a.op, (ast.Add, ast.Sub)):
+                    try:
+                        cur = ev(a.target, env, None); d = ev(a.value, env, None)
+                        env[a.target.id] = cur + d if isinstance(a.op, ast.Add) else cur - d
+                    except Unknown:
+                        env.pop(a.target.id, None)
+            nxt = [t for (t, lab) in node.succ if lab != "exc"] or [t for (t, lab) in node.succ]
+            if not nxt:
+                out.append(("fall", None, visited, calls)); return
+            n = nxt[0]
+
+    walk(g.entry, dict(env), [], [], 0)
+    return out
+
+
+def _calls_in(a, env, call_args):
+    res = []
+    for c in ast.walk(a):
+        if isinstance(c, ast.Call):
+            nm = ast.unparse(c.func)
+            if nm in call_args:
+                vals = []
+                for x in list(c.args) + [k.value for k in c.keywords]:
+                    try:
+                        vals.append(ev(x, env, None))
+                    except Unknown:
+                        vals.append(Unknown)
+                res.append((nm, vals, c))
+    return res
